@@ -32,6 +32,7 @@ type Request struct {
 	HistSeed uint64   `json:"hist_seed"`
 	Dynamic  bool     `json:"dynamic,omitempty"` // C18 sub-stream: link with dynamic extension values
 	Skip     []string `json:"skip,omitempty"`
+	Dead     []string `json:"dead,omitempty"` // steps during which an earlier child died
 }
 
 // Obs is the observed behaviour of one step.
@@ -46,6 +47,15 @@ type Obs struct {
 	Viol    []string `json:"viol,omitempty"`  // property clauses found violated by the worker-side oracle
 	Names   []string `json:"names,omitempty"` // hist: message order
 	Extra   string   `json:"extra,omitempty"`
+}
+
+func (r *Request) dead(step string) bool {
+	for _, s := range r.Dead {
+		if s == step {
+			return true
+		}
+	}
+	return false
 }
 
 func (r *Request) skip(step string) bool {
@@ -315,6 +325,7 @@ func (p *Pool) runOne(cp **child, req *Request) []Obs {
 			return append(all, Obs{Step: "worker", Class: class, Msg: "worker died outside a step"})
 		}
 		all = append(all, Obs{Step: inflight, Class: class, Msg: "worker process died during this step (not recoverable: stack overflow / runtime fatal error)"})
+		req.Dead = append(req.Dead, inflight)
 		done2 := map[string]bool{}
 		for _, o := range all {
 			done2[o.Step] = true
